@@ -673,8 +673,9 @@ def r01_9(ctx, rep):
                 and isinstance(st.value, ast.Call) and (call_name(st.value) or "").endswith(suffix)}
 
     lexers, parsers, listeners = bound("Lexer"), bound("ModelicaParser"), bound("ErrorListener")
-    if not lexers or not parsers or not listeners:
-        raise MechanismMissing(R, "_parse no longer creates lexer / parser / error listener")
+    if not parsers or not listeners:
+        raise MechanismMissing(R, "_parse no longer creates parser / error listener")
+    # a lexer that is not bound to a name (created in place) cannot have a listener attached: the obligation below fails for it
     entry = [x for x in cfg.stmts() if isinstance(x.ast, ast.Assign) and isinstance(x.ast.value, ast.Call) and isinstance(x.ast.value.func, ast.Attribute)
              and isinstance(x.ast.value.func.value, ast.Name) and x.ast.value.func.value.id in parsers and not x.ast.value.args
              and x.ast.value.func.attr not in ("addErrorListener", "removeErrorListeners")]
@@ -690,7 +691,7 @@ def r01_9(ctx, rep):
                "the recording error listener is not attached to the %s before the entry rule runs: %s" % (
                    kind, "a character the lexer cannot tokenise is printed and dropped, and the damaged text is parsed (and cached) as if it were valid"
                    if kind == "lexer" else "syntax errors are not recorded"))
-    walks = [x for x in cfg.stmts() if any((call_name(c) or "").endswith(".walk") for c in calls(x.ast))]
+    walks = [x for x in cfg.stmts() if any(method_name(c) == "walk" and isinstance(c.func, ast.Attribute) for c in calls(x.ast))]
 
     def err_test(x):
         return x.kind == "assume" and not x.taken and any(
